@@ -14,7 +14,7 @@ import (
 
 func init() {
 	props["C12"] = &propDef{
-		rule: "cases = generated fragmented files: 1..3 tracks (video and/or audio, any order), 1..6 segments x 1..4 fragments, 8- or 16-byte mdat headers, decoded through the io.Reader or the slice-reader path, delimiters {none, styp per segment, top-level sidx (version 0/1, with/without a free box after it, with the 8- or the 16-byte largesize box header, with 0..12 trailing bytes inside the box), mfra/tfra with the ISM flag, start-on-moof flag}, emsg boxes before fragments, zero/non-zero composition offset on the first sample; checks: grouping of moof/mdat pairs into segments, segment-mode re-encoding byte-identical, and after UpdateSidx(add/not, zero/non-zero EPT) + Encode the index tiles the media (each reference starts at its segment's first byte, ends at the end of the media, durations = summed durations of the reference track); plus the examples/add-sidx binary (built into $VERIF_BUILD/tools/add-sidx) on files of the same family written to disk, three quarters of them with saiz+saio+senc (with/without sub-samples) or PIFF uuid-senc boxes in the trafs of some or all tracks, x options {-removeEnc, -nzEPT, -startSegOnMoof}: the index in the written file is checked against the top-level boxes of the written file (same tiling/duration/EPT clauses; init, mdat and - without -removeEnc - moof boxes byte-identical and in order); non-trivial = distinct file with >= 2 segments, or distinct successful tool run",
+		rule: "cases = generated fragmented files: 1..3 tracks (video and/or audio, any order), 1..6 segments x 1..4 fragments, 8- or 16-byte mdat headers, decoded through the io.Reader or the slice-reader path, delimiters {none, styp per segment, top-level sidx (version 0/1, with/without a free box after it, with the 8- or the 16-byte largesize box header, with 0..12 trailing bytes inside the box), references spread over 2..4 top-level sidx boxes in front of the media (1..3 references each, now and then an empty box; with/without a parent sidx of reference_type 1 entries in front of them), mfra/tfra with the ISM flag, start-on-moof flag}, emsg boxes before fragments, zero/non-zero composition offset on the first sample; checks: grouping of moof/mdat pairs into segments (for sidx-delimited files also with one field of the index disturbed: model vs code only), segment-mode re-encoding byte-identical, and after UpdateSidx(add/not, zero/non-zero EPT) + Encode the index tiles the media (each reference starts at its segment's first byte, ends at the end of the media, durations = summed durations of the reference track); plus the examples/add-sidx binary (built into $VERIF_BUILD/tools/add-sidx) on files of the same family written to disk, three quarters of them with saiz+saio+senc (with/without sub-samples) or PIFF uuid-senc boxes in the trafs of some or all tracks, x options {-removeEnc, -nzEPT, -startSegOnMoof}: the index in the written file is checked against the top-level boxes of the written file (same tiling/duration/EPT clauses; init, mdat and - without -removeEnc - moof boxes byte-identical and in order); non-trivial = distinct file with >= 2 segments, or distinct successful tool run",
 		gen:  genC12,
 		exec: execC12,
 	}
@@ -35,6 +35,19 @@ type ffSpec struct {
 	sidxLg  bool   // the top-level sidx carries the 16-byte largesize header (size32 == 1)
 	sidxPad int    // trailing bytes inside the sidx box after its last reference (covered by the box size)
 	enc     string // per track: '-' no encryption boxes in its trafs, 'c' saiz+saio+senc (8-byte IVs), 's' the same with sub-samples, 'u' PIFF uuid-senc ("" = none)
+	split   []int  // several top-level sidx boxes in front of the media: number of references (segments) of each, in order (nil = one sidx listing every segment)
+	hier    bool   // a parent sidx in front of them whose reference_type 1 entries point at those sidx boxes
+}
+
+func (s *ffSpec) splitStr() string {
+	if len(s.split) == 0 {
+		return "-"
+	}
+	var t []string
+	for _, n := range s.split {
+		t = append(t, fmt.Sprint(n))
+	}
+	return strings.Join(t, "+")
 }
 
 func (s *ffSpec) line() string {
@@ -43,7 +56,7 @@ func (s *ffSpec) line() string {
 	if enc == "" {
 		enc = "-"
 	}
-	p = append(p, fmt.Sprintf("ffile %s %s %s %s %s %s %s %d %s", strings.Join(s.media, ","), s.delim, b01(s.free), b01(s.flagSOM), b01(s.largeMd), b01(s.sr), b01(s.sidxLg), s.sidxPad, enc))
+	p = append(p, fmt.Sprintf("ffile %s %s %s %s %s %s %s %d %s %s %s", strings.Join(s.media, ","), s.delim, b01(s.free), b01(s.flagSOM), b01(s.largeMd), b01(s.sr), b01(s.sidxLg), s.sidxPad, enc, s.splitStr(), b01(s.hier)))
 	for _, sg := range s.segs {
 		var fs []string
 		for _, f := range sg {
@@ -70,6 +83,14 @@ func parseFF(req string) *ffSpec {
 	}
 	if len(f0) >= 10 && len(f0[9]) == len(s.media) {
 		s.enc = f0[9]
+	}
+	if len(f0) >= 12 {
+		if f0[10] != "-" {
+			for _, x := range strings.Split(f0[10], "+") {
+				s.split = append(s.split, atoi(x))
+			}
+		}
+		s.hier = f0[11] == "1"
 	}
 	for _, sp := range parts[1:] {
 		var sg []ffFrag
@@ -98,6 +119,7 @@ type ffBuilt struct {
 	mediaEnd   int
 	sidxPos    int // byte offset and size of the top-level sidx written by the generator (size 0: none)
 	sidxSize   int
+	nSidx      int        // number of top-level sidx boxes written (they are adjacent, sidxSize covers them all)
 	fragRefDur [][]uint64 // per segment per fragment: summed durations of the reference track's samples
 }
 
@@ -216,39 +238,104 @@ func buildFF(s *ffSpec) (*ffBuilt, error) {
 		if s.delim == "sidx1" {
 			ver = 1
 		}
-		pl := []byte{ver, 0, 0, 0, 0, 0, 0, 1, 0, 1, 0x5f, 0x90}
-		firstOff := 0
+		// one sidx box: (reference_type, referenced_size, duration) entries, first_offset; the box may occupy more
+		// bytes than its minimal encoding (trailing bytes after the last reference and/or the 64-bit size form of the
+		// header); references still count from the first byte after the box
+		type sref struct {
+			typ       uint32
+			size, dur int
+		}
+		mk := func(firstOff int, refs []sref) []byte {
+			pl := []byte{ver, 0, 0, 0, 0, 0, 0, 1, 0, 1, 0x5f, 0x90}
+			if ver == 0 {
+				pl = append(pl, 0, 0, 0, 0)
+				pl = binary.BigEndian.AppendUint32(pl, uint32(firstOff))
+			} else {
+				pl = append(pl, 0, 0, 0, 0, 0, 0, 0, 0)
+				pl = binary.BigEndian.AppendUint64(pl, uint64(firstOff))
+			}
+			pl = append(pl, 0, 0)
+			pl = binary.BigEndian.AppendUint16(pl, uint16(len(refs)))
+			for _, r := range refs {
+				pl = binary.BigEndian.AppendUint32(pl, r.typ<<31|uint32(r.size))
+				pl = binary.BigEndian.AppendUint32(pl, uint32(r.dur))
+				if r.typ == 0 {
+					pl = binary.BigEndian.AppendUint32(pl, 0x90000000)
+				} else {
+					pl = binary.BigEndian.AppendUint32(pl, 0)
+				}
+			}
+			for k := 0; k < s.sidxPad; k++ {
+				pl = append(pl, byte(0x11*k))
+			}
+			if s.sidxLg {
+				hd := []byte{0, 0, 0, 1, 's', 'i', 'd', 'x'}
+				hd = binary.BigEndian.AppendUint64(hd, uint64(16+len(pl)))
+				return append(hd, pl...)
+			}
+			return box("sidx", pl)
+		}
+		split := s.split
+		if len(split) == 0 {
+			split = []int{len(segs)}
+		}
+		tot := 0
+		for _, n := range split {
+			tot += n
+		}
+		if tot != len(segs) {
+			return nil, fmt.Errorf("sidx split %v does not cover %d segments", split, len(segs))
+		}
+		// the boxes sit one after the other in front of the media: box j lists the next split[j] segments; its
+		// first_offset skips the sidx boxes behind it (and the free box) and the media listed by the boxes before it
+		freeLen := 0
 		if s.free {
-			firstOff = 13
+			freeLen = 13
 		}
-		if ver == 0 {
-			pl = append(pl, 0, 0, 0, 0)
-			pl = binary.BigEndian.AppendUint32(pl, uint32(firstOff))
-		} else {
-			pl = append(pl, 0, 0, 0, 0, 0, 0, 0, 0)
-			pl = binary.BigEndian.AppendUint64(pl, uint64(firstOff))
+		var refs [][]sref
+		var durs []int
+		at := 0
+		for _, n := range split {
+			var rs []sref
+			d := 0
+			for i := at; i < at+n; i++ {
+				rs = append(rs, sref{0, len(segs[i].b), int(out.refDur[i])})
+				d += int(out.refDur[i])
+			}
+			refs = append(refs, rs)
+			durs = append(durs, d)
+			at += n
 		}
-		pl = append(pl, 0, 0)
-		pl = binary.BigEndian.AppendUint16(pl, uint16(len(segs)))
-		for i, sg := range segs {
-			pl = binary.BigEndian.AppendUint32(pl, uint32(len(sg.b)))
-			pl = binary.BigEndian.AppendUint32(pl, uint32(out.refDur[i]))
-			pl = binary.BigEndian.AppendUint32(pl, 0x90000000)
+		sizes := make([]int, len(split))
+		for j := range split {
+			sizes[j] = len(mk(0, refs[j]))
 		}
-		// the box may occupy more bytes than its minimal encoding: trailing bytes after the last reference
-		// and/or the 64-bit size form of the header; references still count from the first byte after the box
-		for k := 0; k < s.sidxPad; k++ {
-			pl = append(pl, byte(0x11*k))
+		var boxes [][]byte
+		mediaBefore := 0
+		for j := range split {
+			behind := 0
+			for _, x := range sizes[j+1:] {
+				behind += x
+			}
+			boxes = append(boxes, mk(behind+freeLen+mediaBefore, refs[j]))
+			for _, r := range refs[j] {
+				mediaBefore += r.size
+			}
+		}
+		if s.hier {
+			// parent index: one reference_type 1 entry per sidx box behind it (referenced material = that box)
+			var rs []sref
+			for j := range split {
+				rs = append(rs, sref{1, sizes[j], durs[j]})
+			}
+			boxes = append([][]byte{mk(0, rs)}, boxes...)
 		}
 		out.sidxPos = len(file)
-		if s.sidxLg {
-			hd := []byte{0, 0, 0, 1, 's', 'i', 'd', 'x'}
-			hd = binary.BigEndian.AppendUint64(hd, uint64(16+len(pl)))
-			file = append(file, append(hd, pl...)...)
-		} else {
-			file = append(file, box("sidx", pl)...)
+		for _, bx := range boxes {
+			file = append(file, bx...)
 		}
 		out.sidxSize = len(file) - out.sidxPos
+		out.nSidx = len(boxes)
 		if s.free {
 			file = append(file, box("free", []byte{1, 2, 3, 4, 5})...)
 		}
@@ -404,6 +491,45 @@ func execC12(req string) string {
 	return out
 }
 
+// disturbIndex returns a copy of the file in which one field of one of the top-level sidx boxes is changed (box sizes
+// stay as they are).
+func disturbIndex(c *Ctx, b *ffBuilt) []byte {
+	r := c.R
+	d := cp(b.bytes)
+	type loc struct{ firstOff, offLen, refs, n int }
+	var boxes []loc
+	for p := b.sidxPos; p < b.sidxPos+b.sidxSize; {
+		sz, hl := int(binary.BigEndian.Uint32(d[p:])), 8
+		if sz == 1 {
+			sz, hl = int(binary.BigEndian.Uint64(d[p+8:])), 16
+		}
+		l := loc{firstOff: p + hl + 16, offLen: 4}
+		if d[p+hl] != 0 {
+			l = loc{firstOff: p + hl + 20, offLen: 8}
+		}
+		l.refs = l.firstOff + l.offLen + 4
+		l.n = int(binary.BigEndian.Uint16(d[l.refs-2:]))
+		boxes = append(boxes, l)
+		p += sz
+	}
+	l := boxes[r.Intn(len(boxes))]
+	delta := uint32(1 + r.Intn(9))
+	if r.Intn(2) == 0 {
+		delta = -delta
+	}
+	switch k := r.Intn(4); {
+	case k == 0 || l.n == 0:
+		at := l.firstOff + l.offLen - 4
+		binary.BigEndian.PutUint32(d[at:], binary.BigEndian.Uint32(d[at:])+delta)
+	case k == 1:
+		at := l.refs + 12*r.Intn(l.n)
+		binary.BigEndian.PutUint32(d[at:], (binary.BigEndian.Uint32(d[at:])+delta)&0x7fffffff|uint32(d[at]&0x80)<<24)
+	default:
+		d[l.refs+12*r.Intn(l.n)] ^= 0x80
+	}
+	return d
+}
+
 func groupingString(f *mp4.File) string {
 	var segs []string
 	for _, sg := range f.Segments {
@@ -476,8 +602,52 @@ func genFF(c *Ctx) *ffSpec {
 		if r.Intn(4) == 0 {
 			s.sidxPad = 1 + r.Intn(12)
 		}
+		// the references may be spread over several top-level sidx boxes (a box holds at most 65535 of them; indexes
+		// are also written in pieces), optionally below a parent index
+		if r.Intn(3) == 0 {
+			splitSidx(c, s, 2+r.Intn(3), r.Intn(3) == 0)
+		}
 	}
 	return s
+}
+
+// splitSidx spreads the segments of s over k top-level sidx boxes (each gets at least one while segments last; now
+// and then one box stays empty), adding segments (copies of drawn ones) so that boxes list several references.
+func splitSidx(c *Ctx, s *ffSpec, k int, hier bool) {
+	r := c.R
+	s.split, s.hier = nil, hier
+	tot := 0
+	for j := 0; j < k; j++ {
+		n := 1 + r.Intn(3)
+		if r.Intn(8) == 0 {
+			n = 0
+		}
+		s.split = append(s.split, n)
+		tot += n
+	}
+	if tot == 0 {
+		s.split[k-1], tot = 2, 2
+	}
+	for len(s.segs) > tot {
+		s.segs = s.segs[:len(s.segs)-1]
+	}
+	for len(s.segs) < tot {
+		src := s.segs[r.Intn(len(s.segs))]
+		nf := 1 + r.Intn(2)
+		if nf > len(src) {
+			nf = len(src)
+		}
+		sg := make([]ffFrag, nf)
+		copy(sg, src[:nf])
+		if sg[0].ops[0].cto != 0 { // only the very first sample of the file carries the composition offset
+			ops := append([]fragOp(nil), sg[0].ops...)
+			for i := range ops {
+				ops[i].cto = 0
+			}
+			sg[0].ops = ops
+		}
+		s.segs = append(s.segs, sg)
+	}
 }
 
 func genC12(c *Ctx) {
@@ -492,6 +662,17 @@ func genC12(c *Ctx) {
 			s.sr = it/6%2 == 1
 			s.free = it/12%2 == 1
 			s.flagSOM = false
+			s.split, s.hier = nil, false
+		} else if it < 24+36 {
+			// boundary members of the family "references spread over several top-level sidx boxes": 2, 3 or 4 boxes,
+			// with/without a parent index, both versions, both decoders, with/without the free box and the flag
+			k := it - 24
+			s.delim = []string{"sidx0", "sidx1"}[k%2]
+			s.sr = k/2%2 == 1
+			s.free = k/12%3 == 1
+			s.flagSOM = k/12%3 == 2
+			s.sidxLg, s.sidxPad = k%7 == 3, []int{0, 0, 0, 5}[k%4]
+			splitSidx(c, s, 2+k/4%3, k%3 == 2)
 		}
 		req := s.line()
 		key := ""
@@ -500,6 +681,9 @@ func genC12(c *Ctx) {
 		}
 		c.Eval(key)
 		c.Count("delim=" + s.delim)
+		if len(s.split) > 0 {
+			c.Count(fmt.Sprintf("top-level sidx boxes=%d parent=%v", len(s.split), s.hier))
+		}
 		if s.flagSOM {
 			c.Count("startOnMoof")
 		}
@@ -524,6 +708,14 @@ func genC12(c *Ctx) {
 					ism := b01(s.delim == "mfra")
 					q := fmt.Sprintf("group %s %s %s", som, ism, hx(b.bytes))
 					c.Case(q, execC12(q))
+				}
+				// the same file with its index disturbed (a reference's type bit flipped, a referenced size or a
+				// first_offset changed): no expectation of its own, the grouping rule of model and code is compared
+				if b.nSidx > 0 {
+					for m := 0; m < 2; m++ {
+						q := fmt.Sprintf("group 0 0 %s", hx(disturbIndex(c, b)))
+						c.Case(q, execC12(q))
+					}
 				}
 			}
 			// (1) grouping
@@ -582,19 +774,27 @@ func genC12(c *Ctx) {
 				if s.sidxLg || s.sidxPad > 0 {
 					// a sidx that occupies more bytes than its minimal encoding is neither an init box nor a fragment:
 					// the init boxes in front of it and every fragment behind it must come out byte-identically and
-					// in order, with exactly one sidx box (in whatever encoding) in between
+					// in order, with exactly the sidx boxes (as many as were read, in whatever encoding) in between
 					pre, post, got := b.bytes[:b.sidxPos], b.bytes[b.segStart[0]:b.mediaEnd], eb.Bytes()
 					okMid := false
 					if len(got) >= len(pre)+len(post)+8 && bytes.HasPrefix(got, pre) && bytes.HasSuffix(got, post) {
 						mid := got[len(pre) : len(got)-len(post)]
-						sz := uint64(binary.BigEndian.Uint32(mid))
-						if sz == 1 && len(mid) >= 16 {
-							sz = binary.BigEndian.Uint64(mid[8:])
+						n := 0
+						for len(mid) >= 8 {
+							sz := uint64(binary.BigEndian.Uint32(mid))
+							if sz == 1 && len(mid) >= 16 {
+								sz = binary.BigEndian.Uint64(mid[8:])
+							}
+							if string(mid[4:8]) != "sidx" || sz < 8 || sz > uint64(len(mid)) {
+								break
+							}
+							mid = mid[sz:]
+							n++
 						}
-						okMid = string(mid[4:8]) == "sidx" && sz == uint64(len(mid))
+						okMid = len(mid) == 0 && n == b.nSidx
 					}
 					if !okMid {
-						fail("segment-identity", "segment-mode re-encoding does not reproduce the init and every fragment byte-identically and in order (around a non-minimal sidx)", fmt.Sprintf("len %d", len(got)), fmt.Sprintf("init %d bytes + one sidx + fragments %d bytes", len(pre), len(post)))
+						fail("segment-identity", "segment-mode re-encoding does not reproduce the init and every fragment byte-identically and in order (around a non-minimal sidx)", fmt.Sprintf("len %d", len(got)), fmt.Sprintf("init %d bytes + %d sidx + fragments %d bytes", len(pre), b.nSidx, len(post)))
 					}
 				} else if !bytes.Equal(eb.Bytes(), want) {
 					fail("segment-identity", "segment-mode re-encoding does not reproduce the init and every fragment byte-identically and in order", fmt.Sprintf("len %d", eb.Len()), fmt.Sprintf("len %d", len(want)))
@@ -1101,6 +1301,7 @@ func genAddSidx(c *Ctx) {
 			s.delim = "none" // the tool does not decode with the ISM flag: a trailing mfra box is no delimiter
 		}
 		s.sr, s.flagSOM = false, false
+		s.split, s.hier = nil, false // the tool is run on files with at most one index box
 		if r.Intn(4) > 0 {
 			e := make([]byte, len(s.media))
 			for i := range e {
